@@ -38,7 +38,7 @@ use ark_ec::{
 };
 use ark_ff::{
     field_hashers::{DefaultFieldHasher, HashToField},
-    BigInteger, Field, Fp2, Fp2Config, Fp3, Fp3Config, MontFp, One, PrimeField, Zero,
+    Field, Fp2, Fp2Config, Fp3, Fp3Config, MontFp, One, PrimeField, Zero,
 };
 use ark_test_curves::bls12_381 as bls;
 use arkharness::util::*;
@@ -370,7 +370,9 @@ fn swu_exceptional<P: SWUConfig>(iso_dens: &[&[P::BaseField]], rng: &mut Rng) ->
     let mut targets = roots(&[P::COEFF_B, P::COEFF_A, P::BaseField::zero(), one], rng); // 2-torsion: gx = 0
     for d in iso_dens { targets.extend(roots(d, rng)); }
     for x in targets { us.extend(swu_preimages::<P>(x)); }
-    us
+    let mut seen: Vec<P::BaseField> = Vec::new();
+    for u in us { if !seen.contains(&u) { seen.push(u); } }
+    seen
 }
 
 // ------------------------------------------------------------------ curve configurations
@@ -409,6 +411,8 @@ const TOY_ISO_13: IsogenyMap<'static, ToyWbIso127, ToyWb127> = IsogenyMap {
         MontFp!("-61"), MontFp!("-46"), MontFp!("-13"), MontFp!("-42"), MontFp!("11"), MontFp!("-30"), MontFp!("38"), MontFp!("3"),
         MontFp!("52"), MontFp!("-63"), MontFp!("44"), MontFp!("1")],
 };
+// INVALID on purpose: SWU directly on y² = x³ + 3 (a = 0): `div3 = 0`, the division panics (the debug_assert is compiled out)
+impl SWUConfig for ToyWb127 { const ZETA: FDT127 = MontFp!("-1"); }
 impl WBConfig for ToyWb127 {
     type IsogenousCurve = ToyWbIso127;
     const ISOGENY_MAP: IsogenyMap<'static, ToyWbIso127, ToyWb127> = TOY_ISO_13;
@@ -416,8 +420,13 @@ impl WBConfig for ToyWb127 {
 // synthetic: E' : y² = x³ + 114x + 12 = (x−1)(x−3)(x−123) over F_127 (full rational 2-torsion: gx1 = 0 is reachable),
 // 2-isogeny with kernel {O, (1, 0)} (Vélu): x ↦ (x² − x + 117)/(x − 1), y ↦ y·(x² − 2x + 11)/(x − 1)²,
 // codomain E : y² = x³ + 37x + 82 (checked by brute force over all points of E').
+// ZETA = 3: non-square with g(B/(ZETA·A)) a non-zero square (RFC 9380 §6.6.2 criterion 4 on Z).
 toy_sw!(ToyTors127, FDT127, MontFp!("114"), MontFp!("12"), MontFp!("1"), MontFp!("0"), 1);
-impl SWUConfig for ToyTors127 { const ZETA: FDT127 = MontFp!("-1"); }
+impl SWUConfig for ToyTors127 { const ZETA: FDT127 = MontFp!("3"); }
+// the same curve with ZETA = −1: a non-square, but g(B/(ZETA·A)) is a non-square (criterion 4 violated;
+// `check_parameters` does not test it): an INVALID configuration, kept to record what the code does with it
+toy_sw!(ToyInv127, FDT127, MontFp!("114"), MontFp!("12"), MontFp!("1"), MontFp!("0"), 1);
+impl SWUConfig for ToyInv127 { const ZETA: FDT127 = MontFp!("-1"); }
 toy_sw!(ToyIso2Cod127, FDT127, MontFp!("37"), MontFp!("82"), MontFp!("0"), MontFp!("0"), 1);
 const TOY_ISO_2: IsogenyMap<'static, ToyTors127, ToyIso2Cod127> = IsogenyMap {
     x_map_numerator: &[MontFp!("117"), MontFp!("-1"), MontFp!("1")],
@@ -429,11 +438,12 @@ impl WBConfig for ToyIso2Cod127 {
     type IsogenousCurve = ToyTors127;
     const ISOGENY_MAP: IsogenyMap<'static, ToyTors127, ToyIso2Cod127> = TOY_ISO_2;
 }
-// SWU over the toy quadratic extension F_49 = F_7[i]/(i² + 1): y² = x³ + (1 + i)x + (2 + 3i), ZETA = 1 + 2i
-// (norm 5, a non-square of F_7, so ZETA is a non-square of F_49); exhaustive over all 49 u, including u with u.c0 = 0
+// SWU over the toy quadratic extension F_49 = F_7[i]/(i² + 1): y² = x³ + (1 + i)x + (2 + 3i), ZETA = 1 + 3i
+// (norm 10 = 3, a non-square of F_7, so ZETA is a non-square of F_49; g(B/(ZETA·A)) is a non-zero square);
+// exhaustive over all 49 u, including u with u.c0 = 0
 toy_sw!(ToySwu49, F49, F49::new(MontFp!("1"), MontFp!("1")), F49::new(MontFp!("2"), MontFp!("3")),
         F49::new(MontFp!("0"), MontFp!("0")), F49::new(MontFp!("0"), MontFp!("0")), 1);
-impl SWUConfig for ToySwu49 { const ZETA: F49 = F49::new(MontFp!("1"), MontFp!("2")); }
+impl SWUConfig for ToySwu49 { const ZETA: F49 = F49::new(MontFp!("1"), MontFp!("3")); }
 
 // elligator2.rs tests: −x² + y² = 1 + 12x²y² over F_101, Montgomery (76, 23), Z = 2
 pub struct ToyEll101;
@@ -458,6 +468,31 @@ impl Elligator2Config for ToyEll101 {
     const Z: FDT101x = MontFp!("2");
     const ONE_OVER_COEFF_B_SQUARE: FDT101x = MontFp!("80");
     const COEFF_A_OVER_COEFF_B: FDT101x = MontFp!("56");
+}
+// synthetic: Montgomery y² = x³ + 5x² + x over F_127 (A = 5, B = 1) = twisted Edwards 7x² + y² = 1 + 3x²y², Z = −1:
+// p ≡ 3 (mod 4), so 1 + Z·u² = 0 at u = ±1 (the `den_1 = 0` branch)
+pub struct ToyEll127;
+impl CurveConfig for ToyEll127 {
+    const COFACTOR: &'static [u64] = &[1];
+    const COFACTOR_INV: FDT13 = MontFp!("1");
+    type BaseField = FDT127;
+    type ScalarField = FDT13; // placeholder; not used by the map
+}
+impl te::TECurveConfig for ToyEll127 {
+    const COEFF_A: FDT127 = MontFp!("7");
+    const COEFF_D: FDT127 = MontFp!("3");
+    const GENERATOR: te::Affine<Self> = te::Affine::new_unchecked(MontFp!("0"), MontFp!("1"));
+    type MontCurveConfig = Self;
+}
+impl te::MontCurveConfig for ToyEll127 {
+    const COEFF_A: FDT127 = MontFp!("5");
+    const COEFF_B: FDT127 = MontFp!("1");
+    type TECurveConfig = Self;
+}
+impl Elligator2Config for ToyEll127 {
+    const Z: FDT127 = MontFp!("-1");
+    const ONE_OVER_COEFF_B_SQUARE: FDT127 = MontFp!("1");
+    const COEFF_A_OVER_COEFF_B: FDT127 = MontFp!("5");
 }
 // Jubjub (test-curves ed_on_bls12_381: a = −1, d = −10240/10241, Montgomery (40962, −40964)) with Z = 5
 // (the least non-square of its base field); 1/B² and A/B computed offline and re-checked at start-up.
@@ -662,6 +697,9 @@ fn main() {
     cfg_sw::<ToyWbIso127>(&mut out, "t127iso", "7f");
     cfg_wb::<ToyWb127>(&mut out, "t127wb", "t127iso", "1", "7f");
     cfg_sw::<ToyTors127>(&mut out, "tors127", "0");
+    cfg_sw::<ToyInv127>(&mut out, "inv127", "0");
+    cfg_sw::<ToyWb127>(&mut out, "inva0", "0");
+    cfg_ell::<ToyEll127>(&mut out, "e127", "0");
     cfg_wb::<ToyIso2Cod127>(&mut out, "iso2", "tors127", "1", "0");
     cfg_sw::<ToySwu49>(&mut out, "t49", "0");
     cfg_ell::<ToyEll101>(&mut out, "e101", "b");
@@ -671,8 +709,8 @@ fn main() {
         rfc_hash_vectors::<bls::g1::Config>(&mut out, "g1", "BLS12381G1_XMD-SHA-256_SSWU_RO_.json");
         rfc_hash_vectors::<bls::g2::Config>(&mut out, "g2", "BLS12381G2_XMD-SHA-256_SSWU_RO_.json");
     }
-    if sel("g1") { sw_suite::<bls::g1::Config>(&mut rng, &mut out, "g1", "g1iso", 300 * x, 20 * x); }
-    if sel("g2") { sw_suite::<bls::g2::Config>(&mut rng, &mut out, "g2", "g2iso", 300 * x, 10 * x); }
+    if sel("g1") { sw_suite::<bls::g1::Config>(&mut rng, &mut out, "g1", "g1iso", if t { 3000 } else { 800 }, 20 * x); }
+    if sel("g2") { sw_suite::<bls::g2::Config>(&mut rng, &mut out, "g2", "g2iso", if t { 3000 } else { 600 }, 10 * x); }
     if sel("toy") {
         // exhaustive over all field elements
         for u in all_elems::<FDT127>() { swu_line::<ToySwu127>(&mut out, "t127", u); }
@@ -681,7 +719,10 @@ fn main() {
         for u in all_elems::<FDT127>() { swu_line::<ToyTors127>(&mut out, "tors127", u); }
         for u in all_elems::<FDT127>() { wb_line::<ToyIso2Cod127>(&mut out, "iso2", u); }
         for u in all_elems::<F49>() { swu_line::<ToySwu49>(&mut out, "t49", u); }
+        for u in all_elems::<FDT127>() { swu_line::<ToyInv127>(&mut out, "inv127", u); }
+        for u in [0u64, 1, 2, 126] { swu_line::<ToyWb127>(&mut out, "inva0", FDT127::from(u)); }
         for u in all_elems::<FDT101x>() { ell_line::<ToyEll101>(&mut out, "e101", u); }
+        for u in all_elems::<FDT127>() { ell_line::<ToyEll127>(&mut out, "e127", u); }
         // the solver must find exactly the exceptional inputs the exhaustive sweep contains
         let m = &TOY_ISO_2;
         for u in swu_exceptional::<ToyTors127>(&[m.x_map_denominator, m.y_map_denominator], &mut rng) { wb_line::<ToyIso2Cod127>(&mut out, "iso2", u); }
@@ -694,7 +735,7 @@ fn main() {
     if sel("jub") {
         let mut us = vec![JFq::zero()];
         if let Some(u) = (-<JubjubEll as Elligator2Config>::Z.inverse().unwrap()).sqrt() { us.push(u); us.push(-u); }
-        us.extend(edge_elems::<JFq>(&mut rng, 300 * x));
+        us.extend(edge_elems::<JFq>(&mut rng, if t { 3000 } else { 800 }));
         for u in us { ell_line::<JubjubEll>(&mut out, "jub", u); }
         for (d, msg) in pairs(&mut rng, false, 10 * x) { ehash_line::<JubjubEll>(&mut out, "jub", &d, &msg); }
     }
